@@ -171,7 +171,7 @@ def run_tlc(module, cfg, pid, workers=8, dump=None, simulate=None, depth=None, t
     if m:
         res['depth'] = int(m.group(1))
     res['violation'] = ('is violated' in out) or ('Error: Invariant' in out) or \
-                       ('Temporal properties were violated' in out) or ('Deadlock reached' in out)
+                       ('Temporal properties were violated' in out) or (' was violated' in out) or ('Deadlock reached' in out)
     res['ok'] = ('Model checking completed. No error has been found.' in out) or \
                 (simulate is not None and p.returncode in (0,) and 'Error:' not in out)
     if not res['ok'] and not res['violation']:
